@@ -246,9 +246,9 @@ class Out:
                 val = helper.uri(val)
             elif 'HASH' == type_:
                 val = self.ser._hash(val)
-            elif hasattr(val, 'cssText'):
+            elif hasattr(type(val), 'cssText'):
                 val = val.cssText
-            elif hasattr(val, 'mediaText'):
+            elif hasattr(type(val), 'mediaText'):
                 val = val.mediaText
             elif val in '+>~,:{;)]/=}' and not alwaysS:
                 self._remove_last_if_S()
@@ -973,7 +973,7 @@ class CSSSerializer:
 
             # name
             for part in nameseq:
-                if hasattr(part, 'cssText'):
+                if hasattr(type(part), 'cssText'):
                     out.append(part.cssText)
                 elif property.literalname == part:
                     out.append(self._propertyname(property, part))
@@ -994,7 +994,7 @@ class CSSSerializer:
             if out and priorityseq:
                 out.append(' ')
                 for part in priorityseq:
-                    if hasattr(part, 'cssText'):  # comments
+                    if hasattr(type(part), 'cssText'):  # comments
                         out.append(part.cssText)
                     else:
                         if (
@@ -1014,7 +1014,7 @@ class CSSSerializer:
         # TODO: use Out()
         out = []
         for part in priorityseq:
-            if hasattr(part, 'cssText'):  # comments
+            if hasattr(type(part), 'cssText'):  # comments
                 out.append(' ')
                 out.append(part.cssText)
                 out.append(' ')
@@ -1032,7 +1032,7 @@ class CSSSerializer:
                 type_, val = item.type, item.value
                 if valuesOnly and type_ == cssutils.css.CSSComment:
                     continue
-                elif hasattr(val, 'cssText'):
+                elif hasattr(type(val), 'cssText'):
                     # RGBColor or CSSValue if a CSSValueList
                     out.append(val.cssText, type_)
                 else:
@@ -1132,7 +1132,7 @@ class CSSSerializer:
 
                 if valuesOnly and type_ == cssutils.css.CSSComment:
                     continue
-                elif hasattr(val, 'cssText'):
+                elif hasattr(type(val), 'cssText'):
                     # RGBColor or CSSValue if a CSSValueList
                     out.append(val.cssText, type_)
                 elif type_ == 'CHAR' and val in '-+*/':
